@@ -475,6 +475,8 @@ def replaceInMinimize (ret : Prog) (stm : Stm) : M (List Stm) :=
               | none => throw "py: IndexError: oldmax.atom.symbol.arguments[idx]"
               | some ra =>
               if ra != Term.var varname then pure [stm] else
+              -- fix (known_findings.json `fixed:`): ... and must not be one of the group's keys as well
+              if (args0.filter (· == ra)).length != 1 then pure [stm] else
               let oldVars := (vOfList om.vars).filter (· != varname)
               let termVars := ts.flatMap characteristicVars
               if !vSubset oldVars termVars then pure [stm]
@@ -513,6 +515,8 @@ def replaceInSumElem (elem : BAggElem) (restElems : List BAggElem) : M (List BAg
           | none => throw "py: IndexError: old_max.atom.symbol.arguments[idx]"
           | some ra =>
           if ra != Term.var varname then pure [elem] else
+          -- fix (known_findings.json `fixed:`): ... and must not be one of the group's keys as well
+          if (args0.filter (· == ra)).length != 1 then pure [elem] else
           let oldVars := (vOfList (litVars om)).filter (· != varname)
           let termVars := restTerms.flatMap characteristicVars
           if !vSubset oldVars termVars then pure [elem]
